@@ -1531,6 +1531,29 @@ def refcount_protocol_cxx(ctx, crate, cx):
         ctx.ob(R, "resolvo::Vector::detach", "copies-every-element-and-adopts-the-copy", ok_copy and adopts, H,
                "elements 0..size are copy-constructed into the same index of the new buffer, its size is counted per element, and "
                "*this takes the new buffer (%s, adopts=%s)" % (detail, adopts))
+    # --- whoever destroys elements in place reads the element range before it resets the size (seed C17-28: `size = 0;` followed by a
+    #     helper that walks `cbegin()..cend()` destroys nothing and leaks every element)
+    for m in fns:
+        if not cxx.walk(m, lambda y: y.get("kind") == "CXXPseudoDestructorExpr"):
+            continue
+        seq = []
+
+        def flat_(n):
+            if isinstance(n, dict):
+                seq.append(n)
+                for x in n.get("inner", []) or []:
+                    flat_(x)
+        flat_(m)
+        wr = [k for k, y in enumerate(seq) if y.get("kind") == "BinaryOperator" and y.get("opcode") == "=" and _kids(y) and
+              _member_of_this(_kids(y)[0], "size") and _strip(_kids(y)[1]).get("value") == "0"]
+        rd = [k for k, y in enumerate(seq) if y.get("kind") == "MemberExpr" and y.get("name") in ("cend", "end", "size") and
+              cxx.walk(y, lambda z: z.get("kind") == "CXXThisExpr")]
+        dt = [k for k, y in enumerate(seq) if y.get("kind") == "CXXPseudoDestructorExpr"]
+        if wr and dt and min(wr) < max(dt):
+            late = [k for k in rd if k > min(wr)]
+            ctx.ob(R, "resolvo::Vector::%s" % m.get("name"), "element-range-read-before-size-is-reset", not late, H,
+                   "the range of elements to destroy is taken before `size = 0`" if not late else
+                   "`size` is set to 0 and the range to destroy is read afterwards: no element is destroyed")
     # --- clear
     for m in fns:
         if m.get("name") != "clear":
